@@ -56,6 +56,17 @@ func drawString(t *simhook.Tape) string {
 		return stringPool[i]
 	}
 	n := 1 + t.Draw("strlen", 40)
+	if t.Chance("longstr", 1, 12) {
+		// long values cross size thresholds (32, 64, 256, 4096 bytes); filled by
+		// a cheap generator so that the tape stays short
+		n = []int{33, 65, 257, 1025, 4097}[t.Draw("longstrlen", 5)]
+		seed := uint64(t.Draw("longstrseed", 1<<20))
+		b := make([]byte, n)
+		for j := range b {
+			b[j] = byte('a' + simhook.SplitMix(&seed)%26)
+		}
+		return string(b)
+	}
 	b := make([]byte, n)
 	for j := range b {
 		b[j] = byte('a' + t.Draw("strch", 26))
@@ -75,6 +86,15 @@ func drawBytes(t *simhook.Tape) []byte {
 		return []byte("bytes")
 	}
 	n := 1 + t.Draw("byteslen", 48)
+	if t.Chance("longbytes", 1, 12) {
+		n = []int{33, 65, 257, 1025, 4097}[t.Draw("longbyteslen", 5)]
+		seed := uint64(t.Draw("longbytesseed", 1<<20))
+		b := make([]byte, n)
+		for j := range b {
+			b[j] = byte(simhook.SplitMix(&seed))
+		}
+		return b
+	}
 	b := make([]byte, n)
 	for j := range b {
 		b[j] = byte(t.Draw("byte", 256))
